@@ -332,6 +332,10 @@ class Interp:
         return self.getattr(obj, node.attr, node)
 
     def getattr(self, obj, attr, node):
+        if attr == "__class__":
+            from .lib import kind_of
+            k = obj.cls.split("::")[-1] if isinstance(obj, SObj) else kind_of(obj).split(".")[-1]
+            return SObj("type", {"__name__": k})
         if isinstance(obj, Mod):
             full = obj.name + "." + attr
             if self.lib.is_module(full):
@@ -675,7 +679,8 @@ class Interp:
         if self.tc is not None and qual in getattr(self.tc, "overrides", {}):
             c = self.tc.overrides[qual]
         inline_all = getattr(self.ctx.run, "inline_all", False)
-        if c is not None and qual != self.self_qual and not c.inline_only and not inline_all:
+        if c is not None and not c.inline_only and not inline_all and (qual != self.self_qual or c.result is not None):
+            # (a recursive call of the function under verification uses its own contract: partial correctness)
             return self.ctx.call_contract(self, c, fnode, args, kwargs, node)
         if qual in self.inline or (c is not None and (c.inline_only or inline_all)) or self.module.is_trivial(fnode):
             mod = self.module.module_of(qual)
